@@ -8,6 +8,7 @@ import (
 	"github.com/ipfs/go-cid"
 	"github.com/ipni/go-libipni/announce"
 	"github.com/libp2p/go-libp2p/core/peer"
+	"github.com/multiformats/go-multiaddr"
 )
 
 // C08: one sync at a time per publisher, bounded concurrency across
@@ -17,7 +18,7 @@ func VerifC08_AnnounceBursts() {
 	chainB := []cid.Cid{vCid(21)}
 	maxAsync := verif_Choose("maxAsyncConcurrency", 0, 2) // 0 = unlimited
 	v := newLiveSub(chainA, maxAsync)
-	pidB := peer.ID("publisher-2")
+	pidB := vPeerID("publisher-2")
 	syB := v.addPublisher(pidB, chainB)
 	v.sy.yield, syB.yield = true, true
 	running := []int{0, 0}
@@ -97,7 +98,13 @@ func VerifC08_ExplicitDuringAnnounced() {
 	}
 	evch, _ := v.s.OnSyncFinished()
 	verif_Assume(v.s.Announce(context.Background(), chain[0], v.peer) == nil)
-	got, err := v.s.SyncAdChain(context.Background(), v.peer, ScopedBlockHook(func(p peer.ID, c cid.Cid, a SegmentSyncActions) {
+	// the application may name the publisher only through the /p2p component of
+	// its addresses (a supported form): it is the same publisher, the same handler
+	explicitPeer := v.peer
+	if verif_Bool("publisherNamedOnlyInAddress") {
+		explicitPeer = peer.AddrInfo{Addrs: []multiaddr.Multiaddr{vP2PAddr(v.peer.ID)}}
+	}
+	got, err := v.s.SyncAdChain(context.Background(), explicitPeer, ScopedBlockHook(func(p peer.ID, c cid.Cid, a SegmentSyncActions) {
 		unlock := ghostLock()
 		scoped = append(scoped, c)
 		unlock()
